@@ -479,20 +479,59 @@ func checkEvaluator(pl *pool, rt *ssa.Function) {
 		c.check(eq, "C04.eval", "recordTransition returns "+names[v], p.ipos(r), "decision list position matches READY > CONNECTING > TRANSIENT_FAILURE", "aggregate "+names[v]+" is returned under the wrong condition: "+wit)
 	})
 	c.check(len(seen) == 3, "C04.eval", "recordTransition: three outcomes", p.pos(rt.Pos()), "all three aggregate states are produced", "evaluator does not produce all three aggregate states")
-	// counter/state agreement and ±1
-	pairs := map[string]string{"connectivityStateEvaluator.numReady": "el==Ready", "connectivityStateEvaluator.numConnecting": "el==Connecting", "connectivityStateEvaluator.numTransientFailure": "el==TF"}
-	nst := 0
+	// counter/state agreement and ±1. Two accepted shapes:
+	//  A) one store per counter inside a range over [old,new]: counter += 2·idx−1 for the element's state;
+	//  B) two stores per counter: counter −= 1 ⇔ old == its state, counter += 1 ⇔ new == its state.
+	pairs := map[string]string{"connectivityStateEvaluator.numReady": "Ready", "connectivityStateEvaluator.numConnecting": "Connecting", "connectivityStateEvaluator.numTransientFailure": "TF"}
+	stateConst := map[string]int64{"Ready": pl.Ready, "Connecting": pl.Connecting, "TF": pl.TF}
+	var batoms []atomDef
+	for _, sname := range []string{"Ready", "Connecting", "TF"} {
+		batoms = append(batoms, eqAtom("old=="+sname, isVal(rt.Params[1]), constIs(stateConst[sname])), eqAtom("new=="+sname, isVal(rt.Params[2]), constIs(stateConst[sname])))
+	}
+	bcs := newCondSpace(rt, recOf(batoms...), atomNames(batoms...)...)
+	bcs.ExclusiveAtoms("old==Ready", "old==Connecting", "old==TF")
+	bcs.ExclusiveAtoms("new==Ready", "new==Connecting", "new==TF")
+	nst, usedA := 0, false
+	perCounter := map[string][2]int{}
 	for _, a := range pl.ai.ByFn[rt] {
-		atom, ok := pairs[a.Field]
+		sname, ok := pairs[a.Field]
 		if !ok || a.What != "store" {
 			continue
 		}
 		nst++
 		st := a.Instr.(*ssa.Store)
-		imp, wit := cs.Implies(cs.Reach(st), cs.Atom(atom))
-		// value = load(field) + updateVal, updateVal = 2*uint64(idx) - 1
+		construct := "recordTransition updates " + lastDot(a.Field)
+		bo, isB := st.Val.(*ssa.BinOp)
+		if !isB || !isLoadOf(bo.X, a.Field) || (bo.Op != token.ADD && bo.Op != token.SUB) {
+			c.fail("C04.eval", construct, p.ipos(st), "counter is not updated by adding/subtracting to its own value: "+vstr(st.Val))
+			continue
+		}
+		if d, isC := constInt(bo.Y); isC && (d == 1 || d == -1) {
+			// shape B
+			delta := d
+			if bo.Op == token.SUB {
+				delta = -d
+			}
+			atom := "new==" + sname
+			if delta < 0 {
+				atom = "old==" + sname
+			}
+			eq, wit := bcs.Equiv(bcs.OnlyNamed(bcs.Reach(st)), bcs.Atom(atom))
+			pc := perCounter[a.Field]
+			if delta < 0 {
+				pc[0]++
+			} else {
+				pc[1]++
+			}
+			perCounter[a.Field] = pc
+			c.check(eq && !inLoop(st), "C04.eval", fmt.Sprintf("%s by %+d", construct, delta), p.ipos(st), fmt.Sprintf("counter %+d ⇔ %s", delta, atom), "counter is stepped under the wrong condition: "+wit)
+			continue
+		}
+		// shape A
+		usedA = true
+		imp, wit := cs.Implies(cs.Reach(st), cs.Atom("el=="+sname))
 		okVal := false
-		if bo, ok := st.Val.(*ssa.BinOp); ok && bo.Op == token.ADD && isLoadOf(bo.X, a.Field) {
+		if bo.Op == token.ADD {
 			if sub, ok := bo.Y.(*ssa.BinOp); ok && sub.Op == token.SUB {
 				if one, ok := constInt(sub.Y); ok && one == 1 {
 					if mul, ok := sub.X.(*ssa.BinOp); ok && mul.Op == token.MUL {
@@ -506,35 +545,42 @@ func checkEvaluator(pl *pool, rt *ssa.Function) {
 							idx = cv.X
 						}
 						_, isPhi := idx.(*ssa.Phi)
-						_, isBin := idx.(*ssa.BinOp) // rangeindex: t+1
+						_, isBin := idx.(*ssa.BinOp)
 						okVal = isTwo && two == 2 && (isPhi || isBin)
 					}
 				}
 			}
 		}
-		c.check(imp && okVal, "C04.eval", "recordTransition updates "+lastDot(a.Field), p.ipos(st),
+		perCounter[a.Field] = [2]int{1, 1}
+		c.check(imp && okVal, "C04.eval", construct, p.ipos(st),
 			"counter updated exactly for its own state, by 2·idx−1 (−1 for the old state at index 0, +1 for the new state at index 1)",
 			fmt.Sprintf("counter %s updated for the wrong state or by the wrong amount (%s) %s", a.Field, vstr(st.Val), wit))
 	}
 	c.floor("C04.eval-updates", nst, 3)
-	// the ranged slice is [old, new] in this order
-	okOrder := 0
-	eachInstr(rt, func(in ssa.Instruction) {
-		st, ok := in.(*ssa.Store)
-		if !ok {
-			return
-		}
-		ia, ok := st.Addr.(*ssa.IndexAddr)
-		if !ok {
-			return
-		}
-		i, isC := constInt(ia.Index)
-		if !isC {
-			return
-		}
-		if (i == 0 && st.Val == rt.Params[1]) || (i == 1 && st.Val == rt.Params[2]) {
-			okOrder++
-		}
-	})
-	c.check(okOrder == 2, "C04.eval", "recordTransition: [old,new] order", p.pos(rt.Pos()), "index 0 is the old state, index 1 the new state", "the slice ranged over is not [oldState, newState]")
+	for f := range pairs {
+		pc := perCounter[f]
+		c.check(pc[0] == 1 && pc[1] == 1, "C04.eval", "recordTransition: "+lastDot(f)+" stepped once down, once up", p.pos(rt.Pos()), "one decrement (old state) and one increment (new state) per transition", fmt.Sprintf("counter has %d decrement(s) and %d increment(s)", pc[0], pc[1]))
+	}
+	if usedA {
+		// the ranged slice is [old, new] in this order
+		okOrder := 0
+		eachInstr(rt, func(in ssa.Instruction) {
+			st, ok := in.(*ssa.Store)
+			if !ok {
+				return
+			}
+			ia, ok := st.Addr.(*ssa.IndexAddr)
+			if !ok {
+				return
+			}
+			i, isC := constInt(ia.Index)
+			if !isC {
+				return
+			}
+			if (i == 0 && st.Val == rt.Params[1]) || (i == 1 && st.Val == rt.Params[2]) {
+				okOrder++
+			}
+		})
+		c.check(okOrder == 2, "C04.eval", "recordTransition: [old,new] order", p.pos(rt.Pos()), "index 0 is the old state, index 1 the new state", "the slice ranged over is not [oldState, newState]")
+	}
 }
